@@ -196,7 +196,7 @@ def _bin(op, x, y):
     raise Stop("operator %s on symbolic operands" % op)
 
 
-def run(fn, args, stop_before=None, max_steps=4000, call_model=None, stop_after=None, params=None):
+def run(fn, args, stop_before=None, max_steps=4000, call_model=None, stop_after=None, params=None, closure_of=None):
     """Run fn's MIR from bb0.  args: {local: value}.  Returns (locals dict, end) where end is 'return' or ('stop', bb).
     Raises Stop(reason) when the domain cannot represent a step or an assertion (overflow / bounds check) fails."""
     vals = dict(args)
@@ -286,6 +286,11 @@ def run(fn, args, stop_before=None, max_steps=4000, call_model=None, stop_after=
                 return ()
             if k.get("variant"):
                 return Enum(k["variant"])
+            pd = k.get("pdefs") or []
+            if k.get("promoted") is not None and len(pd) == 1 and pd[0].startswith("variant:"):
+                # promoted `&Enum::Variant` (e.g. the right-hand side of `order != Ordering::Equal`)
+                e = Enum(pd[0][8:].split("#")[0].rsplit("::", 1)[-1])
+                return Ref({"c": e}, "c") if str(k.get("ty", "")).startswith("&") else e
             raise Stop("non-integer constant")
         return read(op_place(o))
 
@@ -308,6 +313,8 @@ def run(fn, args, stop_before=None, max_steps=4000, call_model=None, stop_after=
             return d0
         if name == "into_iter" and isinstance(a0, Struct):
             return a0
+        if name == "into_iter" and isinstance(a0, Slice):
+            return Iter(list(a0.items))          # array / Vec by value: the items themselves
         if name == "into_iter" and isinstance(d0, Slice):
             return as_iter(d0)
         if name in ("iter_mut", "iter") and isinstance(d0, Slice):
@@ -321,6 +328,39 @@ def run(fn, args, stop_before=None, max_steps=4000, call_model=None, stop_after=
             return ()
         if name == "rev" and isinstance(d0, Iter):
             return Iter(list(reversed(d0.items)))
+        if name in ("eq", "ne") and len(argv) == 2:
+            x, y = d0, (argv[1].get() if isinstance(argv[1], Ref) else argv[1])
+            while isinstance(x, Ref):
+                x = x.get()
+            while isinstance(y, Ref):
+                y = y.get()
+            if isinstance(x, Enum) and isinstance(y, Enum):
+                return (x.name == y.name) == (name == "eq")
+        if name in ("copied", "cloned") and isinstance(d0, Iter):
+            return Iter([x.get() if isinstance(x, Ref) else x for x in d0.items])
+        if name in ("collect", "from_iter") and isinstance(d0, Iter):
+            return Slice(list(d0.items))
+        if name in ("to_be_bytes", "to_le_bytes") and len(argv) == 1 and (isinstance(a0, BV) or (isinstance(a0, int) and not isinstance(a0, bool))):
+            if isinstance(a0, int):
+                bs = [(a0 >> (8 * k)) & 0xFF for k in range(8)]
+            else:
+                bs = [BV(a0.rows[8 * k:8 * k + 8] + [0] * (W - 8), (a0.const >> (8 * k)) & 0xFF) for k in range(8)]
+            return Slice(bs if name == "to_le_bytes" else bs[::-1])
+        if name in ("map", "flat_map") and len(argv) == 2 and isinstance(d0, Iter) and closure_of is not None:
+            clo = closure_of(t)
+            if clo is None:
+                raise Stop("closure of %s not resolved" % name)
+            out = []
+            for item in d0.items:
+                env = {"env": argv[1]}
+                byref = (clo.local_ty(1) or "").startswith("&")
+                v2, _ = run(clo, {1: Ref(env, "env") if byref else argv[1], 2: item}, max_steps=max_steps, call_model=call_model, params=params, closure_of=closure_of)
+                r2 = v2.get(0)
+                if name == "flat_map":
+                    out.extend(as_iter(r2).items if not isinstance(r2, Slice) else list(r2.items))
+                else:
+                    out.append(r2)
+            return Iter(out)
         if name == "enumerate" and isinstance(d0, Iter):
             return Iter([(i, x) for i, x in enumerate(d0.items)])
         if name == "zip" and len(argv) == 2 and isinstance(d0, Iter):
@@ -424,6 +464,8 @@ def run(fn, args, stop_before=None, max_steps=4000, call_model=None, stop_after=
                     v = Enum(r["variant"])
                 else:
                     v = Struct({i: x for i, x in enumerate(ops)})
+            elif k == "agg" and r.get("closure"):
+                v = Struct({i: operand(o) for i, o in enumerate(r["ops"])})
             elif k == "agg" and r.get("ak") == "array":
                 v = Slice([operand(o) for o in r["ops"]])
             elif k == "repeat":
